@@ -82,6 +82,29 @@ STRENGTHENED = {
     "C18-8": "same change as C02-8 (origin setter on one-sample axes); reported by C18 (`convert_back:memory:origin`) and C02",
     "C20-8": "missed; new oracle operations `losses.<fn>[norm=scalar0d | scalar1 | recipe]` (the normalisation factor as a learnable "
              "tensor, and as the documented max_difference(source, target)^2 of the optimised images)",
+    # round 6 (one seed per property: special values, boundaries, repeated application, mirrored inputs)
+    "C01-9": "missed; the `laws` oracle now also draws RELATED grid triples (g, g.resize(a), g.resize(b): same world domain, other "
+             "sizes), the pairs for which a 'same domain, nothing to do' shortcut is tempting",
+    "C04-9": "same change as C03-8; first only `no-failing-input-found` in C04 (C03 gave the input); new form `center_crop_oversize` "
+             "(requested size larger than the image along some axes) with a ramp",
+    "C05-9": "first reported only by C15; the `self` oracle now samples the same image twice with constant padding (on a grid that "
+             "really differs — `Grid.__eq__` ignores the flag) and compares results and the image",
+    "C06-9": "missed; new target kind `flipped` (same field of view, reversed index order along two axes) in the ImageTransformer "
+             "stream and oracle",
+    "C07-9": "missed; `linear_inverse` now also takes the inverse of the inverse (same link mode): it inverts the inverse and is "
+             "the original map",
+    "C09-9": "first only `no-failing-input-found`; the regrid oracle now draws flag-only grid changes (a grid that is `==` the old "
+             "one but has the other align_corners)",
+    "C10-9": "missed; `world_affine` now enumerates same-domain targets (grid.resize) for every representation x both flags",
+    "C13-9": "reported by C11 (`inverse-flag:scale` at steps = 0), not by C13",
+    "C16-9": "first only `no-failing-input-found` (the new generated obligation `gen_module_norm_value` broke); the `modules` oracle "
+             "now passes the factor 1 as float, int and tensor",
+    "C17-9": "first only `no-failing-input-found` (generated obligation of `lame_parameters`); the `lame` oracle now starts every "
+             "pair at lambda = 0 (Poisson's ratio exactly 0)",
+    "C18-9": "first only `no-failing-input-found` (stream `mha_header`); the generators now draw grids with origin exactly 0 (and "
+             "unit spacing / identity direction)",
+    "C20-9": "same change as C05-9; first reported only by C15; `check_op` now evaluates every operation twice with unchanged "
+             "inputs (`C20:irreproducible:*`) and a constant-padding `grid_sample` operation was added",
 }
 
 
@@ -115,7 +138,8 @@ def main():
            "independently arrived at the same change three times — `ExpFlow.inverse()` rebuilt without align_corners — and at the "
            "SVF `grid_()` change twice), -8 round 5 (one per property: the defect lives in exactly one branch that depends on the SHAPE "
            "of the problem — number of dimensions, batch size / broadcasting, channels, size parity or boundary sizes, rank or type "
-           "of an optional argument). The first round-3 change for C12 (dropping the up-front float cast of "
+           "of an optional argument), -9 round 6 (one per property: special values and boundaries — exact zeros / ones, indices at 0 or n−1, "
+           "falsy-but-valid arguments, same-domain or mirrored grids — and repeated application). The first round-3 change for C12 (dropping the up-front float cast of "
            "integer flows in spatial_derivatives) was only a defect because finite_differences truncated fractional spacings for "
            "integer data on the unchanged tree; that is a genuine defect (repaired, 57bfa1a), after which the change is "
            "behaviour-preserving, so it was replaced by a new one. "
